@@ -54,4 +54,6 @@ c49c330 C20
 70eb3db C16
 e416d58 C07
 341ef7e C19
+f89ce52 C13 C10
+4c5f5c3 C13
 LIST
